@@ -58,8 +58,26 @@ func runLight(c rcase, shared *expr.Expression) []string {
 	return res
 }
 
+// the error VALUE is part of a result: a call that fails must fail the same way every time
+func errText(err error) string {
+	if err == nil {
+		return "|0"
+	}
+	return "|1:" + err.Error()
+}
+
+func errorTexts(c rcase) string {
+	return guard(func() string {
+		_, e1 := parseWith(c.q, c.df)
+		_, e2 := lucene.ToPostgres(c.q)
+		_, _, e3 := lucene.ToParameterizedPostgres(c.q)
+		return errText(e1) + errText(e2) + errText(e3)
+	})
+}
+
 func runAll(c rcase, shared *expr.Expression) []string {
 	res := observeQuery(c.q, c.df)[1:10] // parse, validate, String, GoString, Render, RenderParam, Marshal, ToPostgres, ToParameterizedPostgres
+	res = append(res, errorTexts(c))
 	if shared != nil {
 		res = append(res, renderAll(shared)...)
 		res = append(res, guard(func() string {
@@ -97,6 +115,9 @@ func raceMain(args []string) {
 	cases := []rcase{}
 	for _, q := range corpusQueries {
 		cases = append(cases, rcase{q, ""}, rcase{q, "d"})
+	}
+	for _, q := range []string{`a\"b:1 AND c\"d:2`, `a\"b:1 OR c\"d:2 OR e\"f:[1 TO 2]`, `NOT x\"y:w* AND (p\"q:1 OR r\"s:(u OR v))`, `a:b~ AND c:d^2`, `a:b^2 OR c:d~1 OR e\"f:1`} {
+		cases = append(cases, rcase{q, ""})
 	}
 	for i := 0; i < *n; i++ {
 		t := genTree(1+rng.Intn(3), rng.Intn(3) != 0)
@@ -277,7 +298,81 @@ func raceMain(args []string) {
 			report("shared-expression-modified", i, -1, showExpr(e), snap[i])
 		}
 	}
+	for _, bt := range builtTrees() {
+		before := showExpr(bt.e)
+		guard(func() string { expr.Validate(bt.e); return "" })
+		guard(func() string { _ = bt.e.String(); _ = fmt.Sprintf("%#v", bt.e); return "" })
+		guard(func() string { pg.Render(bt.e); pg.RenderParam(bt.e); json.Marshal(bt.e); return "" })
+		if after := showExpr(bt.e); after != before {
+			mutated++
+			mu.Lock()
+			if len(mism) < 20 {
+				mism = append(mism, fmt.Sprintf("built-expression-modified tree=%s got=%.200s want=%.200s", bt.name, after, before))
+			}
+			mu.Unlock()
+		}
+	}
 	b, _ := json.Marshal(map[string]any{"cases": len(cases), "goroutines": *g, "calls": calls, "shared": len(shared), "mismatches": mism, "mutated": mutated,
 		"samples": []string{cases[0].q, cases[len(cases)-1].q}})
 	fmt.Fprintln(out, strings.TrimSpace(string(b)))
+}
+
+type built struct {
+	name string
+	e    *expr.Expression
+}
+
+// trees a program builds itself: constructors with raw values (a pattern under EQUALS, a number as a field), struct literals,
+// documents written by hand - shapes the parser never returns
+func builtTrees() []built {
+	out := []built{}
+	// a constructor that rejects its arguments (it panics on a value list of raw strings, say) builds nothing: that is its
+	// contract with the caller, not a matter of this property
+	add := func(name string, mk func() *expr.Expression) {
+		defer func() { recover() }()
+		if e := mk(); e != nil {
+			out = append(out, built{name, e})
+		}
+	}
+	for _, b := range []struct {
+		name string
+		mk   func() *expr.Expression
+	}{
+		{`Eq("a","b*")`, func() *expr.Expression { return expr.Eq("a", "b*") }},
+		{`Eq("a","/re/")`, func() *expr.Expression { return expr.Eq("a", "/re/") }},
+		{`Eq("a",5)`, func() *expr.Expression { return expr.Eq("a", 5) }},
+		{`Eq("a","b?c")`, func() *expr.Expression { return expr.Eq("a", "b?c") }},
+		{`LIKE("a","b*")`, func() *expr.Expression { return expr.LIKE("a", "b*") }},
+		{`LIKE("a","plain")`, func() *expr.Expression { return expr.LIKE("a", "plain") }},
+		{`IN("a",LIST("x","y"))`, func() *expr.Expression { return expr.IN("a", expr.LIST(expr.Lit("x"), expr.Lit("y"))) }},
+		{`Rang("a",1,5,true)`, func() *expr.Expression { return expr.Rang("a", 1, 5, true) }},
+		{`Rang("a",5,1,false)`, func() *expr.Expression { return expr.Rang("a", 5, 1, false) }},
+		{`Rang("a","*","z",true)`, func() *expr.Expression { return expr.Rang("a", "*", "z", true) }},
+		{`AND(Eq,NOT(Eq))`, func() *expr.Expression { return expr.AND(expr.Eq("a", "b*"), expr.NOT(expr.Eq("c", "d?"))) }},
+		{`OR(GREATER,LESSEQ)`, func() *expr.Expression { return expr.OR(expr.GREATER("a", 1), expr.LESSEQ("a", 5)) }},
+		{`MUST(MUSTNOT)`, func() *expr.Expression { return expr.MUST(expr.MUSTNOT(expr.Eq("a", "b"))) }},
+		{`BOOST(Eq,2)`, func() *expr.Expression { return expr.BOOST(expr.Eq("a", "b*"), 2) }},
+		{`FUZZY(Eq)`, func() *expr.Expression { return expr.FUZZY(expr.Eq("a", "b")) }},
+		{`Expr("a",Equals,"b*")`, func() *expr.Expression { return expr.Expr("a", expr.Equals, "b*") }},
+		{`Expr("a",Like,"b")`, func() *expr.Expression { return expr.Expr("a", expr.Like, "b") }},
+		{`literal{Equals, Column a, WILD b*}`, func() *expr.Expression { return &expr.Expression{Left: expr.Lit(expr.Column("a")), Op: expr.Equals, Right: expr.WILD("b*")} }},
+		{`literal{Like, Column a, Lit b}`, func() *expr.Expression { return &expr.Expression{Left: expr.Lit(expr.Column("a")), Op: expr.Like, Right: expr.Lit("b")} }},
+	} {
+		add(b.name, b.mk)
+	}
+	for _, doc := range []string{
+		`{"left":"a","operator":"EQUALS","right":"b*"}`,
+		`{"left":"a","operator":"EQUALS","right":"/re/"}`,
+		`{"left":"a","operator":"LIKE","right":"plain"}`,
+		`{"left":{"left":"a","operator":"EQUALS","right":"b?"},"operator":"AND","right":{"left":"c","operator":"EQUALS","right":5}}`,
+		`{"left":5,"operator":"LIKE","right":"*"}`,
+		`{"left":"a","operator":"IN","right":["x","x","y"]}`,
+	} {
+		var d expr.Expression
+		if json.Unmarshal([]byte(doc), &d) == nil {
+			dd := d
+			out = append(out, built{"json " + doc, &dd})
+		}
+	}
+	return out
 }
